@@ -42,6 +42,12 @@ def run(ctx, R, tier):
     from .c06 import param_cache, accumulators
     accumulators(F, R, rule='B.C05.accumulate')
     param_cache(F, R, rule='B.C05.param-cache', fn_filter=lambda q: q.startswith('clock::') or '<clock::' in q, floor=1)
+    # 'a speed change takes effect when it is due': the speed parameter is handed its command reader (every command, also one that
+    # names the current speed, replaces a pending tween); a tweener's set starts its transition on every path (a tween scheduled for a
+    # clock time waits for it whatever its duration)
+    from .c06 import cover as parameter_cover, set_unconditional
+    parameter_cover(F, R)
+    set_unconditional(F, R, rule='B.C05.set')
     from ..enginea import run_singular_only
     run_singular_only(R, F, lambda fn: fn.startswith('clock::') or '<clock::' in fn, floor=3)
 
